@@ -153,10 +153,84 @@ def signature(ob: Obligation, cex: dict, detail: str) -> str:
     return f"C20:parse:{'+'.join(m.get('keys', ['<symbolic>']))}:{detail.split(':')[0]}"
 
 
+def autoid_kernel():
+    """E3: the automatic-id kernel read off the real source by AST - counter start, the read and the increment of the counter inside
+    `with self._autoidlock`, the lock a threading Lock made in __init__, no other store to the counter anywhere in the package - and
+    the invariant 'every issued number is below the counter' shown inductive in z3 (unbounded ints): concurrently allocated automatic
+    ids are pairwise distinct for histories of any length."""
+    import ast
+    import glob
+    import inspect
+    import os
+    import textwrap
+    import time
+
+    import z3
+
+    import execnet
+
+    tree = ast.parse(textwrap.dedent(inspect.getsource(multi.Group.allocate_id)))
+    step = None
+    read_in_lock = incr_in_lock = False
+    for node in ast.walk(tree):
+        if isinstance(node, ast.With) and any("_autoidlock" in ast.unparse(i.context_expr) for i in node.items):
+            for sub in ast.walk(node):
+                if isinstance(sub, ast.AugAssign) and ast.unparse(sub.target) == "self._autoidcounter" and isinstance(sub.op, ast.Add) and isinstance(sub.value, ast.Constant):
+                    step, incr_in_lock = sub.value.value, True
+                if isinstance(sub, ast.Assign) and "self._autoidcounter" in ast.unparse(sub.value):
+                    read_in_lock = True
+    # every read of the counter in allocate_id must be inside the locked block
+    reads_total = sum(1 for n in ast.walk(tree) if isinstance(n, ast.Attribute) and n.attr == "_autoidcounter" and isinstance(n.ctx, ast.Load))
+    reads_locked = 0
+    for node in ast.walk(tree):
+        if isinstance(node, ast.With) and any("_autoidlock" in ast.unparse(i.context_expr) for i in node.items):
+            reads_locked += sum(1 for n in ast.walk(node) if isinstance(n, ast.Attribute) and n.attr == "_autoidcounter" and isinstance(n.ctx, ast.Load))
+    init = ast.parse(textwrap.dedent(inspect.getsource(multi.Group.__init__)))
+    start, lock_kind = None, None
+    for node in ast.walk(init):
+        if isinstance(node, ast.Assign) and ast.unparse(node.targets[0]) == "self._autoidcounter" and isinstance(node.value, ast.Constant):
+            start = node.value.value
+        if isinstance(node, ast.Assign) and ast.unparse(node.targets[0]) == "self._autoidlock":
+            lock_kind = ast.unparse(node.value)
+    other = []
+    for path in sorted(glob.glob(os.path.join(os.path.dirname(execnet.__file__), "*.py"))):
+        try:
+            mt = ast.parse(open(path).read())
+        except (OSError, SyntaxError):
+            continue
+        for fn in [n for n in ast.walk(mt) if isinstance(n, (ast.FunctionDef, ast.AsyncFunctionDef))]:
+            for sub in ast.walk(fn):
+                tg = sub.targets if isinstance(sub, ast.Assign) else ([sub.target] if isinstance(sub, (ast.AugAssign, ast.AnnAssign)) else [])
+                for t in tg:
+                    if isinstance(t, ast.Attribute) and t.attr == "_autoidcounter":
+                        if fn.name == "__init__" and isinstance(sub, ast.Assign) and isinstance(sub.value, ast.Constant):
+                            continue
+                        if fn.name == "allocate_id" and isinstance(sub, ast.AugAssign) and isinstance(sub.op, ast.Add) and isinstance(sub.value, ast.Constant) and sub.value.value == step:
+                            continue
+                        other.append(f"{os.path.basename(path)}:{sub.lineno}: {ast.unparse(sub)}")
+    facts = {"start": start, "increment": step, "read_under_lock": read_in_lock and reads_total == reads_locked, "increment_under_lock": incr_in_lock,
+             "lock": lock_kind, "other_stores_to_counter": other}
+    ok = (isinstance(start, int) and isinstance(step, int) and step > 0 and facts["read_under_lock"] and incr_in_lock and lock_kind in ("Lock()", "RLock()", "threading.Lock()", "threading.RLock()") and not other)
+    queries = []
+    if ok:
+        t0 = time.time()
+        c, n1 = z3.Ints("c n1")
+        s_ = z3.Solver()
+        issued = lambda n, cnt: z3.And(n >= start, n < cnt)
+        s_.push(); s_.add(z3.Not(z3.IntVal(start) >= start)); r1 = str(s_.check()); s_.pop()
+        # one allocation from any state satisfying the invariant: the new number is the counter, fresh w.r.t. every issued number, and the invariant holds afterwards
+        s_.push(); s_.add(c >= start, issued(n1, c), z3.Not(z3.And(c != n1, issued(c, c + step), issued(n1, c + step), c + step >= start))); r2 = str(s_.check()); s_.pop()
+        queries = [{"query": "init establishes the invariant (must be unsat)", "result": r1}, {"query": "allocation step keeps the invariant and yields a fresh number (must be unsat)", "result": r2},
+                   {"solver_s": round(time.time() - t0, 2)}]
+        ok = r1 == r2 == "unsat"
+    return ok, facts, queries
+
+
 def run(tier: str) -> Outcome:
     fns = describe_functions([xspec.XSpec, multi.Group.__getitem__, multi.Group.__contains__, multi.Group.__iter__, multi.Group.__len__,
                                multi.Group._register, multi.Group._unregister, multi.Group.allocate_id])
-    return e1.run_e1(
+    ok, facts, queries = autoid_kernel()
+    out = e1.run_e1(
         "C20", tier, build(tier), signature, fns,
         stubs=[
             "gateways are vlib.hlib.FakeGateway objects (an id attribute); Group.makegateway's process creation is not run here (see C05)",
@@ -171,14 +245,27 @@ def run(tier: str) -> Outcome:
             "values ending with '/' before another pair and keys starting with '/' (the statement's own decomposition is ambiguous there)",
             "the key 'env' (collides with the env mapping: the statement cannot be satisfied for it)",
             "hash(spec) is only compared for specs without symbolic parts (hashing realises)",
-            "concurrent allocate_id callers (schedule-quantified part) are not covered by this E1 check",
+            "concurrent allocate_id callers: decided by the E3 kernel argument (read and increment of the counter inside `with self._autoidlock`), not by exploring schedules; "
+            "an automatic id colliding with an explicit one under concurrency ends in makegateway's registration assert (C05)",
             "python= argv splitting (shlex) is not covered",
         ],
         explanation=("bounded symbolic execution of the real XSpec and Group container/allocation code: attributes, env mapping, str(), ==, != "
                      "compared with the statement's reading of the text for all values in the bound; repeated keys must raise ValueError; group "
-                     "views must agree and ids stay pairwise distinct; 'Confirmed over all paths' per obligation with refuted reachability twin"),
+                     "views must agree and ids stay pairwise distinct; 'Confirmed over all paths' per obligation with refuted reachability twin; E3: the automatic-id "
+                     "kernel (counter start, read and increment under the lock, no other store) is extracted from the real source by AST and 'issued numbers are below the "
+                     "counter' is shown inductive in z3 over unbounded integers: automatic ids are unique under concurrent creation ('gw' + str(n) is injective in n: CPython's int rendering, assumed)"),
+        extra_coverage={"e3_autoid_kernel_facts": facts, "e3_queries": queries, "e3_discharged": ok},
     )
+    if not ok:
+        from vlib.common import Violation
+
+        out.violations.append(Violation(signature="C20:autoid-kernel", what=f"automatic id allocation does not satisfy the freshness induction: {facts} {queries}",
+                                        replay={"engine": "E3", "facts": facts, "queries": queries}))
+    return out
 
 
 def replay(rep: dict):
+    if rep.get("engine") == "E3":
+        ok, facts, queries = autoid_kernel()
+        return (not ok), f"facts={facts} queries={queries}"
     return e1.replay_entry(rep)
